@@ -29,8 +29,15 @@ func (f *Field[T]) reduce(a *Element[T], strict bool) *Element[T] {
 	//   - in non-strict case and the element has overflow
 
 	// sanity check
-	if _, aConst := f.constantValue(a); aConst {
-		panic("trying to reduce a constant, which happen to have an overflow flag set")
+	if ba, aConst := f.constantValue(a); aConst {
+		if a.overflow != 0 {
+			panic("trying to reduce a constant, which happen to have an overflow flag set")
+		}
+		// strict reduction of a constant: the canonical representative is again a constant
+		ba.Mod(ba, f.fParams.Modulus())
+		ret := newConstElement[T](ba, false)
+		ret.modReduced = true
+		return ret
 	}
 	// slow path - use hint to reduce value
 	return f.mulMod(a, f.One(), 0, nil)
